@@ -124,6 +124,8 @@ func (node *UniqueIDNode) Checksum() string {
 // Equals returns true if both nodes have the same UUID value. The checksum (if
 // any) is ignored.
 //
+// If either value is not a valid UUID the raw values are compared instead.
+//
 // If either nodes are nil (or both) the result will always be false.
 func (node *UniqueIDNode) Equals(node2 Node) bool {
 	if IsNil(node) {
@@ -138,8 +140,11 @@ func (node *UniqueIDNode) Equals(node2 Node) bool {
 		u1, err1 := node.UUID()
 		u2, err2 := n2.UUID()
 
+		// A value that is not a valid UUID can only be compared as it is
+		// written. This makes sure that a node is always equal to a copy of
+		// itself.
 		if err1 != nil || err2 != nil {
-			return false
+			return node.SimpleNode.Equals(node2)
 		}
 
 		return u1.Equals(u2)
